@@ -29,7 +29,7 @@ REAL_VS_STUB = {"real": ["torchsde.BrownianInterval/BrownianPath/BrownianTree/Re
                          "numpy SeedSequence", "torch kernels", "sdeint_adjoint (mode adjoint)"],
                 "stub": ["value cache wrapped by FaultyCache (forwarding)", "np.random.randint (entropy seam)"]}
 PROBES = ("repeat_compared", "repeat_after_fault", "repeat_after_refinement", "repeat_other_flags",
-          "multi_piece_repeat", "tiny_cache", "reverse_wrapper", "adjoint_backward_requery")
+          "tiny_cache", "reverse_wrapper", "adjoint_backward_requery")
 STATE_MEASURE = "distinct final interval-tree shapes (hash of display_binary_tree dump)"
 
 ADJOINT_SHARE = 0.0
